@@ -144,7 +144,7 @@ func (u *Unit) addObl(st *State, kind, text string, pos token.Pos, goal Term, ca
 func (st *State) check(kind, text string, pos token.Pos, goal Term) {
 	if !st.u.safety {
 		switch kind {
-		case "index", "slice", "nil", "div0", "typeassert", "panic", "overflow", "writable", "closed", "nonblocking":
+		case "index", "slice", "nil", "div0", "typeassert", "panic", "overflow", "writable", "closed", "nonblocking", "sharedkey":
 			st.assume(goal)
 			return
 		case "pre@callsite":
